@@ -523,6 +523,13 @@ def run(ck):
     if ck.wants("C16.12"):
         from .c05 import worker_gives_up_only_without_seeds as _wg16
         _wg16(ck, "C16.12")
+    ck.clause("C16.14", "a fragment is seeded over the correlations of ALL references of the run (as C08.13): the second pass receives the "
+                        "reference list as the first pass did - a list narrowed to the references that already carry a record leaves "
+                        "the fragment the top seeds of a subset")
+    if ck.wants("C16.14"):
+        from ..report import RuleView as _RV1614
+        from . import c08 as _c08_1614
+        _c08_1614._aligned_rest(_RV1614(ck, {"C08.13": "C16.14"}), {}, None)
     ck.clause("C16.13", "a query is correlated with a reference only when its whole length fits (as C07.G5): the query vector spans "
                         "coordinates 0 .. last label of the molecule - for a second-pass fragment that is the whole molecule, not the "
                         "labelled stretch - and a 'valid' correlation with a query vector longer than the reference vector silently "
